@@ -562,7 +562,28 @@ pub fn inputs_c09(r: &mut Rng, n: usize, tier: &str, out: &mut dyn Write) {
             24 | 25 => writeln!(out, "dur_in_year {}", epoch_c09(r, ts)).unwrap(),
             26 => writeln!(out, "doy {}", epoch_c09(r, ts)).unwrap(),
             27 => writeln!(out, "ydoy {}", epoch_c09(r, ts)).unwrap(),
-            28 => writeln!(out, "greg_rt {}", epoch_c09(r, ts)).unwrap(),
+            28 if r.chance(1, 2) => writeln!(out, "greg_rt {}", epoch_c09(r, ts)).unwrap(),
+            28 => {
+                // fields -> epoch (every constructor, the convenience wrappers included) -> fields (seeded change C09-7: the
+                // *_at_noon constructors rebuilt on `with_hms`, a day early before the scale's reference and midnight in ET/TDB)
+                let (y, m, d, h, mi, s, ns) = valid_fields(r);
+                let t = ts2s(ts);
+                match r.below(14) {
+                    0 => writeln!(out, "fields_rt greg_from {} {} {} {} {} {} {} {}", y, m, d, h, mi, s, ns, t).unwrap(),
+                    1 => writeln!(out, "fields_rt greg {} {} {} {} {} {} {} {}", y, m, d, h, mi, s, ns, t).unwrap(),
+                    2 => writeln!(out, "fields_rt greg_from_tai {} {} {} {} {} {} {}", y, m, d, h, mi, s, ns).unwrap(),
+                    3 => writeln!(out, "fields_rt greg_from_utc {} {} {} {} {} {} {}", y, m, d, h, mi, s, ns).unwrap(),
+                    4 => writeln!(out, "fields_rt greg_midnight {} {} {} {}", y, m, d, t).unwrap(),
+                    5 | 6 => writeln!(out, "fields_rt greg_noon {} {} {} {}", y, m, d, t).unwrap(),
+                    7 => writeln!(out, "fields_rt greg_tai_midnight {} {} {}", y, m, d).unwrap(),
+                    8 => writeln!(out, "fields_rt greg_tai_noon {} {} {}", y, m, d).unwrap(),
+                    9 => writeln!(out, "fields_rt greg_utc_midnight {} {} {}", y, m, d).unwrap(),
+                    10 => writeln!(out, "fields_rt greg_utc_noon {} {} {}", y, m, d).unwrap(),
+                    11 => writeln!(out, "fields_rt greg_hms {} {} {} {} {} {} {}", y, m, d, h, mi, s, t).unwrap(),
+                    12 => writeln!(out, "fields_rt greg_tai_hms {} {} {} {} {} {}", y, m, d, h, mi, s).unwrap(),
+                    _ => writeln!(out, "fields_rt greg_utc_hms {} {} {} {} {} {}", y, m, d, h, mi, s).unwrap(),
+                }
+            }
             _ => {
                 let y = pick_year(r);
                 let m = 1 + r.below(12) as i64;
@@ -698,6 +719,23 @@ pub fn exec(op: &str, a: &[&str]) -> Option<String> {
             let sec: u8 = time[6..8].parse().unwrap();
             let ns: u32 = if time.len() > 8 { time[9..].parse().unwrap() } else { 0 };
             Some(res_e(Epoch::maybe_from_gregorian(y, m, d, h, mi, sec, ns, e.time_scale)))
+        }
+        // C09, second reading ("the fields of an epoch built from valid fields are those fields") through EVERY constructor:
+        // a[0] names the constructor op of C08, the rest are its arguments; the epoch it builds is decomposed through the
+        // default text form (fixed columns from the right) -> y m d h mi s ns SCALE
+        "fields_rt" => {
+            let built = exec(a[0], &a[1..])?;
+            let e = s2e(built.strip_prefix("ok ")?);
+            let s = format!("{}", e);
+            let (body, scale) = s.rsplit_once(' ').unwrap();
+            let (date, time) = body.split_once('T').unwrap();
+            let y: i64 = date[..date.len() - 6].parse().unwrap();
+            let ns: u32 = if time.len() > 8 { time[9..].parse().unwrap() } else { 0 };
+            Some(format!(
+                "ok {} {} {} {} {} {} {} {}",
+                y, &date[date.len() - 5..date.len() - 3].parse::<u8>().unwrap(), &date[date.len() - 2..].parse::<u8>().unwrap(),
+                &time[0..2].parse::<u8>().unwrap(), &time[3..5].parse::<u8>().unwrap(), &time[6..8].parse::<u8>().unwrap(), ns, scale
+            ))
         }
         "fmt_debug" => {
             let e = s2e(a[0]);
